@@ -813,6 +813,19 @@ func (x g) spec() spec {
 			s.html = &h
 		}
 	}
+	if x.p(40) {
+		// per-part encodings (random order), sometimes a third alternative
+		pe := []string{"quoted-printable", "base64", "8bit"}
+		if s.plain != nil {
+			s.penc = pe[x.n(3)]
+		}
+		if s.html != nil {
+			s.henc = pe[x.n(3)]
+		}
+		if s.plain != nil && s.html != nil && x.p(40) {
+			s.extra = append(s.extra, partSpec{html: x.p(50), content: x.text(false), enc: pe[x.n(3)]})
+		}
+	}
 	if x.p(45) {
 		for k := 1 + x.n(2); k > 0; k-- {
 			s.atts = append(s.atts, fileSpec{x.fileName(), x.content()})
@@ -867,6 +880,58 @@ func Run(r *hx.Run, replay []hx.Case) {
 				s.embs = []fileSpec{{"i.png", []byte("\x89PNG")}}
 			}
 			runRT(r, r.NewID(), s)
+		}
+	}
+	// per-part transfer encodings: ALL ordered pairs and triples of {qp, base64, 8bit, 7bit} for the
+	// alternatives of one container, under every message-level default, alone and followed by an
+	// embed / an attachment / both (the part encoding must depend on the part's own headers only)
+	encs := []string{"quoted-printable", "base64", "8bit", "7bit"}
+	body := func(enc string, html bool, k int) string {
+		t := fmt.Sprintf("part %d: a=b and c=3D, caf\u00e9 \u20ac", k)
+		if enc == "7bit" {
+			t = fmt.Sprintf("part %d plain ascii only", k)
+		}
+		if html {
+			return "<p>" + t + "</p>"
+		}
+		return t
+	}
+	tuple := func(def string, pe []string, files int) {
+		s := spec{enc: def, subject: "per-part encodings", fromName: "Sender", nTo: 1, date: 1700000000}
+		p0, h1 := body(pe[0], false, 0), body(pe[1], true, 1)
+		s.plain, s.penc, s.html, s.henc = &p0, pe[0], &h1, pe[1]
+		for k := 2; k < len(pe); k++ {
+			s.extra = append(s.extra, partSpec{html: k%2 == 1, content: body(pe[k], k%2 == 1, k), enc: pe[k]})
+		}
+		if files&1 != 0 {
+			s.embs = []fileSpec{{"i.png", []byte("\x89PNG")}}
+		}
+		if files&2 != 0 {
+			s.atts = []fileSpec{{"a.txt", []byte("attached")}}
+		}
+		runRT(r, r.NewID(), s)
+	}
+	for di, def := range encs {
+		for _, e0 := range encs {
+			for _, e1 := range encs {
+				for files := 0; files < 4; files++ {
+					tuple(def, []string{e0, e1}, files)
+				}
+				for _, e2 := range encs {
+					// triples: every message default in thorough, one rotating default in quick
+					if r.Tier == "thorough" || di == (len(e0)+len(e1)+len(e2))%4 {
+						tuple(def, []string{e0, e1, e2}, (len(e0)+len(e2))%4)
+					}
+				}
+			}
+		}
+	}
+	// single part with a part-level encoding different from the message default, with files
+	for _, def := range encs {
+		for _, e0 := range encs {
+			p0 := body(e0, false, 0)
+			runRT(r, r.NewID(), spec{enc: def, subject: "s", fromName: "Sender", nTo: 1, date: 1700000000, plain: &p0, penc: e0,
+				atts: []fileSpec{{"a.txt", []byte("attached")}}, embs: []fileSpec{{"i.png", []byte("\x89PNG")}}})
 		}
 	}
 	for i := 0; i < nrt && !r.Expired(); i++ {
